@@ -183,3 +183,29 @@ package entry
 //@     invariant fresh(additionalData)
 //@     invariant forall k string :: has(additionalData, k) == visited(0)[k]
 //@     invariant forall k string :: visited(0)[k] ==> has(e.AdditionalData, k) && additionalData[k] == e.AdditionalData[k]
+
+//@ func cidB58
+//@   ensures err == nil ==> result0 == cidb58(c)
+
+//@ func ToHashable
+//@   requires validEntry(e)
+//@   ensures err == nil ==> result0 != nil && fresh(result0) && result0.Clock == e.(*Entry).GetClock() && result0.ID == e.LogID && result0.Payload == e.Payload && result0.V == e.V
+//@   ensures err == nil ==> result0.Key == e.Key && result0.AdditionalData == e.AdditionalData
+//@   ensures [signed-next-is-the-predecessor-list-in-order] err == nil ==> len(result0.Next) == len(e.Next) && (forall i int :: 0 <= i && i < len(e.Next) ==> result0.Next[i] == cidb58(e.Next[i]))
+//@   ensures [signed-refs-is-the-reference-list-in-order] err == nil ==> len(result0.Refs) == len(e.Refs) && (forall i int :: 0 <= i && i < len(e.Refs) ==> result0.Refs[i] == cidb58(e.Refs[i]))
+//@   loop 0
+//@     invariant fresh(nexts) && off(nexts) == 0 && len(nexts) == len(e.Next) && fresh(refs) && off(refs) == 0 && len(refs) == len(e.Refs) && ref(nexts) != ref(refs)
+//@     invariant forall j int :: 0 <= j && j < $k ==> nexts[j] == cidb58(e.Next[j])
+//@   loop 1
+//@     invariant fresh(nexts) && off(nexts) == 0 && len(nexts) == len(e.Next) && fresh(refs) && off(refs) == 0 && len(refs) == len(e.Refs) && ref(nexts) != ref(refs)
+//@     invariant forall j int :: 0 <= j && j < len(e.Next) ==> nexts[j] == cidb58(e.Next[j])
+//@     invariant forall j int :: 0 <= j && j < $k ==> refs[j] == cidb58(e.Refs[j])
+
+//@ func toBuffer
+//@   requires e == nil || validClock(e.Clock)
+//@   ensures e == nil ==> err != nil
+
+//@ func (*Entry).Verify
+//@   requires identity != nil && validAnyIO(io)
+//@   replay verifyentry
+//@   requires e == nil || e.Clock != nil
